@@ -222,7 +222,12 @@ def _join_body(args):
     mode = c.get('mode', 'rows')
     kind = c['kind']
     wl, wr = len(lnames), len(rnames)
-    if mode == 'rows':
+    if mode == 'self':
+        # a table joined with itself (the same object on both sides)
+        out = call(kind, L, L, lo, lo, 'many_to_many')
+        why = check_rows(kind, out, lkeys, lkeys, lrows, lrows, lnames, lnames)
+        if why: return H.fail('self-join: ' + why)
+    elif mode == 'rows':
         exp = c.get('expect', 'many_to_many')
         if exp != 'many_to_many':
             # a cardinality expectation that holds must not change the result (C11 owns the raising side)
